@@ -58,7 +58,9 @@ size_t vf_keep_off2, vf_keep_len2;   /* ghost window 2 */
 #endif
 #define VF_KEEP_STRUCT_(n) struct vf_keep##n
 #define VF_KEEP_STRUCT__(n) VF_KEEP_STRUCT_(n)
+#ifndef VF_KEEP_STRUCT
 #define VF_KEEP_STRUCT VF_KEEP_STRUCT__(VF_KEEP_UNIT)
+#endif
 #define VF_KEEP_T(N) struct vf_keep##N { char b[N]; }
 VF_KEEP_T(1); VF_KEEP_T(2); VF_KEEP_T(3); VF_KEEP_T(4); VF_KEEP_T(8); VF_KEEP_T(12); VF_KEEP_T(16); VF_KEEP_T(24); VF_KEEP_T(32); VF_KEEP_T(64);
 void * realloc(void * ptr, size_t size)
